@@ -36,7 +36,7 @@ Known(e) == e.module \in DOMAIN KnownTests /\ e.test \in KnownTests[e.module]
 ObjectCarriers == {"call_list", "ctx_objs", "mixed_list", "config_obj"}
 Layouts  == {"contexts", "streams", "bare_streams", "bare_modules"}
 Carriers == {"dict", "odict", "yaml_str", "json_str", "yaml_io", "json_io", "yaml_path_str", "yaml_path",
-             "json_path_str", "json_path", "xr_global", "xr_vars", "nc_path"} \cup ObjectCarriers
+             "json_path_str", "json_path", "xr_global", "xr_vars", "nc_path", "xr_global_dict"} \cup ObjectCarriers
 
 HasWindow(c) == c.win # <<NA, NA>>
 HasRegion(c) == c.region # "none"
